@@ -27,12 +27,15 @@ def build(*variants):
         infra("private build of %s failed" % (variants,))
 
 
+BUILD = os.environ.get("VERIF_BUILD", os.path.join(VERIF, "build"))
+
+
 def tool(variant, name):
-    return os.path.join(VERIF, "build", variant, "bin", name)
+    return os.path.join(BUILD, variant, "bin", name)
 
 
 def bdir(variant):
-    return os.path.join(VERIF, "build", variant)
+    return os.path.join(BUILD, variant)
 
 
 def build_harness(variant, name, extra_flags=()):
